@@ -449,7 +449,7 @@ pub fn gen_case(seed: u64, shard: u64, run: u64, t: &Tier) -> Option<Case> {
     let k = CellKnobs {
         tool_p: 0.6,
         base_p: 0.6,
-        max_env: 3,
+        max_env: if knobs.chance(0.05) { 8 } else { 3 },
         max_sub: 2,
         limits: if wrapping { LimitKind::Wrapping } else if knobs.chance(0.5) { LimitKind::Wide } else { LimitKind::Narrow },
         ctor: Ctor::Direct,
@@ -457,7 +457,7 @@ pub fn gen_case(seed: u64, shard: u64, run: u64, t: &Tier) -> Option<Case> {
         sparse: true,
     };
     let mut cell = gen::gen_robot(&mut w, &k);
-    cell.safety = gen::gen_safety(&mut w, cell.tool.is_some(), cell.base.is_some(), 3, false, true);
+    cell.safety = gen::gen_safety(&mut w, cell.tool.is_some(), cell.base.is_some(), k.max_env, false, true);
     if cell.safety.mode == Mode::NoCheck && w.chance(0.7) {
         cell.safety.mode = Mode::First;
     }
